@@ -266,6 +266,47 @@ Theorem C06_noclear_unobservable_on_zero_junk :
     abs s' = pre ++ l.
 Proof. exact writers_zero_junk_noclear. Qed.
 
+(** ** Nested bit strings: WriteBitString / Cell.WriteBitString / Append write
+    ALL bits of the argument, whatever its read cursor is (partly read, fully
+    consumed, even out of range); the argument is passed by value, so the
+    caller's bit string — cursor included — is untouched (in the model the
+    argument is not part of the result state at all). *)
+Theorem C06_write_bitstring_whole_argument :
+  forall a r s, Inv s -> Inv a ->
+  if (len s + len a <=? cap s)%nat then
+    exists s', write_bitstring (set_rcur a r) s = (s', Ok tt) /\
+      abs s' = abs s ++ abs a /\ Inv s' /\ len s' = (len s + len a)%nat /\ rcur s' = rcur s
+  else
+    exists s', write_bitstring (set_rcur a r) s = (s', Err EOverflow) /\
+      firstn (len s) (abs s') = abs s /\ Inv s'.
+Proof. exact write_bitstring_spec. Qed.
+Print Assumptions C06_write_bitstring_whole_argument.
+
+Theorem C06_write_bitstring_ignores_argument_cursor :
+  forall a r s, write_bitstring (set_rcur a r) s = write_bitstring a s.
+Proof. exact write_bitstring_any_cursor. Qed.
+
+Theorem C06_append_ignores_argument_cursor :
+  forall b r s, append_bs (set_rcur b r) s = append_bs b s.
+Proof. exact append_any_cursor. Qed.
+
+(** a WriteBitString that starts at the argument's read cursor stores only the
+    unread remainder: 0xBEEF after ReadUint(4) into a 3-bit string gives 15
+    bits instead of 19; a fully consumed 8-bit argument stores nothing *)
+Theorem C06_write_bitstring_from_cursor_refuted :
+  exists a a' v s, Inv a /\ Inv s /\ read_uint 4 a = (a', Ok v) /\ Inv a' /\
+    (len s + len a' <= cap s)%nat /\
+    let s' := fst (write_bitstring_from_cursor a' s) in
+    len s' = 15%nat /\ abs s' <> abs s ++ abs a' /\
+    abs (fst (write_bitstring a' s)) = abs s ++ abs a' /\ len (fst (write_bitstring a' s)) = 19%nat.
+Proof. exact write_bitstring_from_cursor_refuted. Qed.
+
+Theorem C06_write_bitstring_from_cursor_consumed_refuted :
+  exists a s, Inv a /\ Inv s /\ rcur a = len a /\ len a = 8%nat /\
+    write_bitstring_from_cursor a s = (s, Ok tt) /\
+    len (fst (write_bitstring a s)) = (len s + 8)%nat.
+Proof. exact write_bitstring_from_cursor_consumed_refuted. Qed.
+
 (** Non-vacuity: a concrete non-trivial state and item list meet the premises. *)
 Example C06_premises_satisfiable :
   let s := fst (write_bits [true; false; true] (new_bs 200)) in
